@@ -226,42 +226,110 @@ def r06d(ctx):
               'the thread-local buffer of hash_node_sequence is not cleared before use: the hash depends on earlier calls')
 
 
+def _template_tokens(t):
+    """tokens of a compiled format template: 'ARG' for a plain placeholder, literal strings; None if not understood"""
+    out, i = [], 0
+    while i < len(t):
+        ch = t[i]
+        if ch == '\x00':
+            return out if i == len(t) - 1 else None
+        if ch == '\ufffd' or ord(ch) == 0xC0:
+            out.append('ARG')
+            i += 1
+            continue
+        n = ord(ch)
+        if n >= 0x80 or i + 1 + n > len(t):
+            return None
+        out.append(t[i + 1:i + 1 + n])
+        i += 1 + n
+    return out
+
+
 def node_line(ctx):
     """C06c: the text hashed for an interior node has one line `<hash as lower hex> : <len in decimal>\\n` per child.
-    Decided only for lines produced by core::fmt from (child.hash(), child.len()); a hand-assembled line is reported as
-    not establishable (whether a digit loop prints every usize correctly is arithmetic, not structure)."""
+    The pieces written per child are collected in execution order: core::fmt templates (literal text and the formatter
+    of each argument), constant `push`/`push_str`, and `push_str(&child.hash().hex())` (= `{:x}`).  Any other
+    hand-assembled piece is reported as not establishable (whether a digit loop prints every usize is arithmetic)."""
     F = ctx.F
     h = F.body('merkledb::merklenode::hash_node_sequence')
-    bodies = []
-    for ch in F.children(h):
-        bodies.append(ch)
-        bodies += list(F.children(ch))
-    fmts, hand = [], []
+    bodies, todo = [], list(F.children(h))
+    while todo:
+        b_ = todo.pop(0)
+        if b_ not in bodies:
+            bodies.append(b_)
+            todo += list(F.children(b_))
+    HEX, DEC = ('hex', 'hash'), ('dec', 'len')
+    seqs = []
+    bad = None
     for bdy in bodies:
         ab = an(bdy)
-        for c in ab.calls():
-            fn = sg(ab.term(c).get('fn', ''))
+        sites = []
+        for c in sorted(ab.cfg.reach0):
+            t = ab.term(c)
+            if t['k'] != 'call':
+                continue
+            fn = sg(t.get('fn', ''))
             if fn.endswith('fmt::Arguments::new') or fn.endswith('fmt::Arguments::new_v1') or fn.endswith('fmt::Arguments::new_const'):
-                fmts.append((ab, c))
-            if fn in ('alloc::string::String::push', 'alloc::string::String::push_str', 'alloc::string::String::insert_str', 'alloc::string::String::insert', 'alloc::vec::Vec::push', 'alloc::vec::Vec::extend_from_slice'):
-                hand.append((ab, c))
-    if not ctx.check(not hand, 'R06e', h['qpath'], 'line by core::fmt', hand[0][0].loc(hand[0][1]) if hand else '-', 'the node text is produced by core::fmt only (no hand-assembled pieces)',
-                     'the text hashed for an interior node is assembled by hand (%s): it cannot be established that it spells `{:x} : {}\\n` of (hash, len) for every length (e.g. more digits than a fixed buffer holds)'
-                     % (sg(hand[0][0].term(hand[0][1])['fn']).split('::')[-1] if hand else '')):
+                tpl = ab.arg(c, 0)
+                toks = _template_tokens(tpl[1]) if tpl[0] == 'str' else None
+                args = ab.arg(c, 1) if len(t['args']) > 1 else ('agg', 'array', '', [])
+                els = [e for (_, e) in args[3]] if args[0] == 'agg' else None
+                if toks is None or els is None or toks.count('ARG') != len(els):
+                    bad = (ab, c, 'a format template that is not understood')
+                    continue
+                out, k = [], 0
+                for tk in toks:
+                    if tk != 'ARG':
+                        out.append(tk)
+                        continue
+                    e = els[k]
+                    k += 1
+                    kind = None
+                    if e[0] == 'call' and e[2]:
+                        fm = sg(e[1]).split('::')[-1]
+                        x = e[2][0]
+                        getter = sg(x[1]) if x[0] == 'call' else (sg(ab.flow.sources(x)[0][2][1]) if x[0] == 'local' and len(ab.flow.sources(x)) == 1 and ab.flow.sources(x)[0][2][0] == 'call' else '')
+                        if fm == 'new_lower_hex' and getter == 'merkledb::merklenode::MerkleNode::hash':
+                            kind = HEX
+                        elif fm == 'new_display' and getter == 'merkledb::merklenode::MerkleNode::len':
+                            kind = DEC
+                    out.append(kind if kind else ('?', flow.show(e)[:50]))
+                sites.append((c, out))
+            elif fn in ('alloc::string::String::push', 'alloc::string::String::push_str'):
+                v = ab.arg(c, 1)
+                if v[0] == 'const' and isinstance(v[1], int) and v[2] == 'char':
+                    sites.append((c, [chr(v[1])]))
+                elif v[0] == 'str':
+                    sites.append((c, [v[1]]))
+                elif flow.mentions(v, lambda z: z[0] == 'call' and sg(z[1]).endswith('::hex') and z[2] and flow.mentions(z[2][0], lambda y: y[0] == 'call' and sg(y[1]) == 'merkledb::merklenode::MerkleNode::hash')):
+                    sites.append((c, [HEX]))
+                else:
+                    bad = (ab, c, 'a hand-assembled piece (%s of %s)' % (fn.split('::')[-1], flow.show(v)[:40]))
+            elif fn in ('alloc::string::String::insert_str', 'alloc::string::String::insert', 'alloc::string::String::extend', 'alloc::vec::Vec::push', 'alloc::vec::Vec::extend_from_slice'):
+                bad = (ab, c, 'a hand-assembled piece (%s)' % fn.split('::')[-1])
+        if sites:
+            # execution order inside one iteration: the sites must be totally ordered by dominance
+            sites.sort(key=lambda s_: sum(1 for o in sites if o[0] != s_[0] and ab.cfg.dominates(o[0], s_[0])))
+            if not all(ab.cfg.dominates(sites[i][0], sites[i + 1][0]) for i in range(len(sites) - 1)):
+                bad = bad or (ab, sites[0][0], 'pieces written on alternative paths')
+            seqs.append((ab, sites[0][0], [tk for (_, toks) in sites for tk in toks]))
+    if not ctx.check(bad is None, 'R06e', h['qpath'], 'line by core::fmt', bad[0].loc(bad[1]) if bad else '-', 'the node text is made of core::fmt renderings and constant separators only',
+                     ('the text hashed for an interior node contains %s: it cannot be established that the line spells `{:x} : {}\\n` of (hash, len) for every length (e.g. more digits than a fixed buffer holds)' % bad[2]) if bad else None):
         return
-    if not ctx.check(len(fmts) == 1, 'R06e', h['qpath'], 'one template', '-', 'one format template writes the line of a child'):
+    if not ctx.check(len(seqs) == 1, 'R06e', h['qpath'], 'one writer', '-', 'one place writes the line of a child', 'cannot establish: the line of a child is written in %d places' % len(seqs)):
         return
-    ab, c = fmts[0]
-    tpl = ab.arg(c, 0)
-    lit = ''.join(ch_ for ch_ in (tpl[1] if tpl[0] == 'str' else '') if ch_ == '\n' or (' ' <= ch_ <= '~'))
-    ctx.check(lit == ' : \n', 'R06e', h['qpath'], 'template', ab.loc(c), 'the literal text of the template is " : " and a newline', 'the literal text of the node line template is %r, the published construction has " : " and a newline' % lit)
-    args = ab.arg(c, 1) if len(ab.term(c)['args']) > 1 else ('?',)
-    els = [e for (_, e) in args[3]] if args[0] == 'agg' else []
-    def is_(e, fmt, getter):
-        return e[0] == 'call' and sg(e[1]).endswith('Argument::' + fmt) and e[2] and e[2][0][0] == 'call' and sg(e[2][0][1]) == 'merkledb::merklenode::MerkleNode::' + getter
-    ok = len(els) == 2 and is_(els[0], 'new_lower_hex', 'hash') and is_(els[1], 'new_display', 'len') and els[0][2][0][2] == els[1][2][0][2]
-    ctx.check(ok, 'R06e', h['qpath'], 'arguments', ab.loc(c), 'the line shows the child\'s hash in lower hex and then the same child\'s length in decimal',
-              'the node line is not `{:x}` of child.hash() followed by `{}` of child.len(): %s' % flow.show(args)[:120])
+    ab, c, toks = seqs[0]
+    # merge adjacent literals
+    norm = []
+    for tk in toks:
+        if isinstance(tk, str) and norm and isinstance(norm[-1], str):
+            norm[-1] += tk
+        else:
+            norm.append(tk)
+    def showt(x):
+        return '{:x} of hash' if x == HEX else '{} of len' if x == DEC else repr(x) if isinstance(x, str) else 'a rendering of %s' % x[1]
+    ctx.check(norm == [HEX, ' : ', DEC, '\n'], 'R06e', h['qpath'], 'line', ab.loc(c), 'the line of a child is its hash in lower hex, " : ", its length in decimal and a newline',
+              'the line hashed for a child is [%s]; the published construction is [{:x} of hash, \' : \', {} of len, newline]' % ', '.join(showt(x) for x in norm))
 
 
 def c05_loop(a, b):
